@@ -49,7 +49,7 @@ func (r *recJSON) Unmarshal(data []byte, v any) error {
 	r.unmarshals = append(r.unmarshals, c)
 	return err
 }
-func (r *recJSON) NewEncoder(w io.Writer) serializer.JSONEncoder { return r.inner.NewEncoder(w) }
+func (r *recJSON) NewEncoder(w io.Writer) serializer.JSONEncoder  { return r.inner.NewEncoder(w) }
 func (r *recJSON) NewDecoder(rd io.Reader) serializer.JSONDecoder { return r.inner.NewDecoder(rd) }
 
 func sioErrClass(err error) string {
@@ -104,6 +104,10 @@ func addFrames(maxAtt int, frames [][]byte) (answers []string, oracle string, fi
 		var fin *finished
 		rj.unmarshals = nil
 		var err error
+		if len(f) > 5 && (f[0] == '5' || f[0] == '6') && f[1] >= '0' && f[1] <= '9' && f[4] >= '0' && f[4] <= '9' && progressH != nil {
+			// a header announcing 1000 attachments or more: if the decoder does not come back, this is the input
+			progressH.Progress("Parser.Add of the frame " + strconv.Quote(string(f)))
+		}
 		pn := safely(func() {
 			err = p.Add(append([]byte(nil), f...), func(h *parser.PacketHeader, name string, d parser.Decode) {
 				fin = &finished{h, name, d}
@@ -892,7 +896,12 @@ func sioCodec(h *H) {
 		if r.Intn(6) == 0 {
 			declared = r.Pick([]int{0, nb + 1, 1 << 20})
 		}
-		frames := [][]byte{[]byte(fmt.Sprintf("5%d-%s", declared, js.String()))}
+		declS := strconv.Itoa(declared)
+		if r.Intn(12) == 0 {
+			// absurd attachment counts: what a peer can write in the header, far beyond anything that could be sent
+			declS = []string{"12000000000000", "1000000000000000", "9223372036854775806", "9223372036854775807", "9223372036854775808", "18446744073709551615", "99999999999999999999"}[r.Intn(7)]
+		}
+		frames := [][]byte{[]byte(fmt.Sprintf("5%s-%s", declS, js.String()))}
 		for b := 0; b < nb; b++ {
 			frames = append(frames, []byte{byte(b)})
 		}
@@ -908,7 +917,7 @@ func sioCodec(h *H) {
 		}
 		for _, fin := range fins {
 			decodeAll(req, fin)
-			if nb == 0 || declared != nb || !allInt || !bytes.Equal(frames[0], []byte(fmt.Sprintf("5%d-%s", declared, js.String()))) {
+			if nb == 0 || declared != nb || declS != strconv.Itoa(declared) || !allInt || !bytes.Equal(frames[0], []byte(fmt.Sprintf("5%d-%s", declared, js.String()))) {
 				continue
 			}
 			// well-formed JSON with integer placeholder numbers: outcome against the model
